@@ -302,7 +302,9 @@ def run_one(spec: dict) -> dict:
                     lexical_target = None  # /script|/lineage ignore d: nothing is read through it
             if op.get("extra"):
                 payload.update(op["extra"])
-            path_info = route
+            path_info = route + op.get("route_suffix", "")
+            if op.get("route_case"):
+                path_info = path_info.upper()
         else:
             path_info = op.get("route") or op.get("path_info") or "/"
             spelled = path_info
@@ -358,24 +360,28 @@ def run_one(spec: dict) -> dict:
             if method == "GET":
                 if body not in files_under(allowed_roots):
                     violate("served_content_not_under_root", f"GET {path_info} -> 200 with a body that is not the content of any file under the static folder: {text[:200]!r}")
-            elif method == "POST" and route == "/script":
+            data = None
+            if method == "POST":
                 try:
-                    content = json.loads(text).get("content")
+                    data = json.loads(text)
                 except ValueError:
-                    content = None
+                    data = None
+                if not isinstance(data, dict):
+                    data = None
+            if method == "GET":
+                pass
+            elif data is not None and "content" in data:
+                content = data.get("content")
                 ok_vals = {b.decode("utf-8", "replace") for b in files_under(allowed_roots)} | {"", (payload or {}).get("e", "")}
                 if content is not None and content not in ok_vals:
-                    violate("served_content_not_under_root", f"POST /script payload={json.dumps(payload)} -> 200 with content that is not the content of any file under the root in force "
+                    violate("served_content_not_under_root", f"POST {path_info} payload={json.dumps(payload)} -> 200 with content that is not the content of any file under the root in force "
                             f"{[os.path.relpath(r, world.W) for r in allowed_roots]}: {content[:200]!r}")
-            elif method == "POST" and route == "/directory":
-                try:
-                    listed = json.loads(text).get("id")
-                except ValueError:
-                    listed = None
+            elif data is not None and "children" in data:
+                listed = data.get("id")
                 if listed is not None:
                     la = os.path.normpath(os.path.join(cwd, listed))
                     if not any(under(la, r) for r in allowed_roots):
-                        violate("outside_path_accepted", f"POST /directory payload={json.dumps(payload)} -> 200 listing {os.path.relpath(la, world.W)!r}, which is outside the root in force "
+                        violate("outside_path_accepted", f"POST {path_info} payload={json.dumps(payload)} -> 200 listing {os.path.relpath(la, world.W)!r}, which is outside the root in force "
                                 f"{[os.path.relpath(r, world.W) for r in allowed_roots]}")
         if status == 200 and not outside and lexical_target is not None:
             probe("inside_served")
@@ -607,6 +613,11 @@ def gen_request(g, threaded=False):
     else:
         key = g.choice(["f", "f", "f", "d"])
     op = {"method": "POST", "route": route, "key": key}
+    if g.random() < 0.12:
+        # the route itself spelled unusually (whatever the server makes of it, the disclosure rules still hold)
+        op["route_suffix"] = g.choice(["/", "//", "/.", "?x=1", "/../directory", " "])
+    if g.random() < 0.04:
+        op["route_case"] = True
     if key is not None:
         op["path"] = gen_path(g, any_root=threaded)
     if route == "/lineage" and g.random() < 0.3:
